@@ -34,6 +34,9 @@ func init() {
 			mode := g.Pick("sync", "async", "async", "timed", "hot")
 			script := genScript(g, 10, 4, "CCE--", mode == "timed")
 			sc.Sources = []SrcSpec{{Mode: mode, Script: script}}
+			if mode != "hot" && g.Bool(0.15) {
+				sc.Sources[0].CtorAPI = 3 // the input is somebody else's implementation of Observable
+			}
 			n := g.PickInt(1, 1, 1, 2, 2, 3)
 			genChain(g, sc, n, nvalues(script), g.Pick("sync", "async", "hot", "timed"), chainable)
 			sc.Sub = g.Pick("inside", "outside")
